@@ -307,8 +307,14 @@ def run(ctx):
             for t in flat:
                 if isinstance(t, ast.Attribute) and isinstance(t.value, ast.Name) and t.value.id == f_.params[0] and t.attr in read_attrs:
                     own_stores.append((f_, n, t.attr))
+    # (a single store is a one-shot request being consumed after it was sent - `self._filter_reset = False`; the shape that is reported is a value
+    #  changed and changed back: two or more stores to one encoded attribute inside apply())
+    per_attr = {}
+    for f_, n, a_ in own_stores:
+        per_attr.setdefault(a_, []).append((f_, n, a_))
+    own_stores = [x for a_, xs in sorted(per_attr.items()) if len(xs) >= 2 for x in xs]
     ctx.count("requested_state_attributes", len(read_attrs))
-    ctx.ob("C10.g", ap_.qual, not own_stores, "apply() stores none of the attributes it encodes (the requested state is written by the setters and the response handlers only)",
+    ctx.ob("C10.g", ap_.qual, not own_stores, "apply() does not change an attribute it encodes and change it back (the requested state is written by the setters and the response handlers)",
            func=ap_.qual, file=ap_.module.rel, node=own_stores[0][1] if own_stores else None,
            fail=(f"apply() itself stores self.{own_stores[0][2]} (`{norm(own_stores[0][1])[:60]}`): a command built while that value is in place - by a concurrent "
                  "apply(), or by every later one when the await in between is cancelled - encodes it instead of the requested state") if own_stores else "")
